@@ -1,11 +1,11 @@
 \* design check (thorough): up to three suite files in any order
 CONSTANTS
-  RunModes = {0, 1, 2}
+  RunModes = {0, 1}
   CaseSets = {2}
   MaxSuites = 3
-  SNames = {1, 3}
+  SNames = {1}
   SModes = {0, 1}
-  RelPs = {1, 2}
+  RelPs = {2}
   RelVs = {2}
   RelCs = {2}
   RelZs = {2}
@@ -15,11 +15,11 @@ CONSTANTS
   TestLens = {1}
   SNames2 = {1, 2, 6}
   SModes2 = {0, 2}
-  RelPs2 = {1, 2}
+  RelPs2 = {1}
   RelVs2 = {2}
   RelCs2 = {2}
   RelZs2 = {2}
-  Flags2 = {0, 2}
+  Flags2 = {0}
   Cvms2 = {0}
   TestIdx2 = {18}
   TestLens2 = {0, 1}
